@@ -26,8 +26,7 @@ impl Block {
     pub fn kernels(&self) -> (r: &[TxKernel]) ensures r@ == self.kernel_list@ { self.kernel_list.as_slice() }
 
 //@ extract core/src/core/block.rs :: impl Block::verify_kernel_lock_heights
-//@   rewrite `for k in self.kernels() {` => `for k in it: self.kernels().iter()`
-//@   rewrite `\t\t\t// check we have no kernels with lock_heights greater than current height` => `\t\t{\n\t\t\t// check we have no kernels with lock_heights greater than current height`
+//@   rewrite `for k in self.kernels() {` => `for k in it: self.kernels().iter() {`
 //@   ensures:
 //@+    r.is_ok() <==> all_unlocked(self.kernel_list@, self.header.height, self.kernel_list@.len() as int),
 //@   loop 1:
